@@ -292,6 +292,57 @@ def index_key_dropped(R, ctx):
              "`t[%s]` %s (expected: %s) %s" % (label, "is rewritten to a field access: the key expression and its call are dropped" if got == "Field" else "gives %s" % got, "field" if want_field else "index kept", unknown[:1]))
 
 
+def _unreachable_specs(tier):
+    kinds = ["while", "repeat", "numfor", "genfor"]
+    pool = ["M", "T", ("D", ("R",)), ("D", ("M", "R")), ("D", (("D", ("R",)),)), ("D", (("D", ("M",)), "R")), ("D", ("T", "M")), ("D", (("I", ("R",)),)),
+            ("I", ("R",)), ("IE", ("R",), ("R",)), ("IE", ("M", "R"), ("M",)), ("D", (("IE", ("R",), ("R",)),)), ("F", ("R",)), ("F", ("M", "R")), ("FE", ("M", "R")),
+            ("D", (("F", ("R",)),)), ("D", (("FE", ("R",)),))]
+    for k in kinds:
+        pool += [("L", k, ("R",)), ("L", k, ("M", "R")), ("L", k, ("B", "M", "R")), ("L", k, ("A", "M", "R")), ("D", (("L", k, ("R",)),)),
+                 ("L", k, (("D", ("R",)),)), ("L", k, (("D", ("K",)), "M")), ("L", k, (("D", ("C",)), "M")), ("L", k, (("D", ("B", "R")), "M"))]
+    progs = []
+    for x in pool:
+        progs += [(x, "M"), (x, "M", "R"), ("M", x, "M", "R"), (("D", (x, "M")), "M")]
+        progs += [(("L", k, (x, "M")), "M") for k in (kinds if tier == "thorough" else ["while", "repeat"])]
+    small = [x for x in pool if x in ("M", "T") or x[0] in ("D", "I", "IE") or (x[0] == "L" and x[1] in ("repeat", "while"))]
+    progs += [(x, y, "M") for x in (pool if tier == "thorough" else small) for y in small]
+    return progs
+
+
+def unreachable_code(R, ctx, rid="C01.early-return"):
+    """filter_after_early_return, one of the default rules, evaluated as a whole on enumerated blocks."""
+    from .. import astmodel
+    from .c15 import pmap
+    lib = ctx.lib
+    nbits = 6
+    R.rule(rid, "the filter_after_early_return rule, entered through FlawlessRule::flawless_process and evaluated from its typed tree (visitor walk "
+                "included) on every enumerated block: do blocks ending in return / break / continue or containing one conditionally, all four loop "
+                "kinds whose body ends in `return` with and without an earlier conditional `break` / `continue`, if / if-else branches that return, "
+                "functions that return, each followed by calls and a final return, at the top level, inside a do block and inside a loop body. "
+                "For every oracle of %d condition outcomes the rewritten block is observationally equal (same calls and condition evaluations in "
+                "the same order, same final return) to the original under an independent reference semantics of Lua/Luau control flow "
+                "(sa/astmodel.py): a statement removed as unreachable although some path reaches it changes the trace" % nbits)
+    c = [f for k, f in lib.fns.items() if k.endswith("as rules::FlawlessRule>::flawless_process") and "filter_early_return" in k and thir.body_of(f)]
+    B = astmodel.Builder(lib)
+    if not R.require(rid, "anchor:rule", len(c) == 1 and not B.missing, "", "filter_after_early_return's flawless_process / AST types: %s" % (B.missing or len(c))):
+        return
+    fn = c[0]
+    specs = _unreachable_specs(R.tier)
+    astmodel.configure(ctx=ctx, fn=fn, rule=fn["path"].split(" as ")[0][1:], bits=nbits, no_continue=False)
+    chunks = [specs[k:k + 24] for k in range(0, len(specs), 24)]
+    n, bad, changed = 0, [], 0
+    for res in pmap(astmodel.rule_chunk, chunks):
+        for spec, why, ch in res:
+            n += 1
+            changed += ch
+            if why is not None:
+                bad.append((spec, why))
+    R.ob(rid, "filter_after_early_return|observationally-equal", not bad, ctx.where(fn),
+         "every block keeps its trace" if not bad else "%d blocks differ; first: %s" % (len(bad), bad[0][1]))
+    R.require(rid, "floor", n >= 400 and changed >= 100, ctx.where(fn), "%d blocks x %d oracles; the rule removed something in %d of them" % (n, 2 ** nbits, changed))
+    R.meta[rid] = {"programs": n, "oracles_per_program": 2 ** nbits}
+
+
 def run(R, ctx):
     R.explanation = (
         "Guard-before-act and contradiction rules on typed THIR for the three mechanisms the property anchors: side-effect analysis before "
@@ -316,3 +367,4 @@ def run(R, ctx):
     loops.index_removal_rule(R, ctx, "C01.index")
     from . import c08
     c08.if_effects(R, ctx, "C01.if-effects")
+    unreachable_code(R, ctx)
